@@ -54,7 +54,7 @@ const (
 func init() {
 	kit.Register(&kit.Spec{
 		ID:       "C35",
-		Rule:     "per network (main P2P, DPoS) and command of its real message factory: honest messages from reflect-generated values are written with p2p.WriteMessage and read back with p2p.ReadMessage; each frame is then corrupted: every header byte x (8 single-bit flips + random values; all 255 values for a share of frames), sampled payload bytes, declared length in {0, real-1, real+1, MaxLength, MaxLength+1, 2^31, 2^32-1} with and without that many bytes following, truncation at every header byte and sampled payload offsets, foreign magic, unknown / unterminated / other-network commands, two frames back to back. distinct = distinct (network, byte stream); non-trivial = the stream contains at least a full header",
+		Rule:     "per network (main P2P, DPoS) and command of its real message factory: honest messages from reflect-generated values are written with p2p.WriteMessage and read back with p2p.ReadMessage; each frame is then corrupted: every header byte x (8 single-bit flips + random values; all 255 values for a share of frames), sampled payload bytes, declared length in {0, real-1, real+1, MaxLength, MaxLength+1, 2^31, 2^32-1} with and without that many bytes following, truncation at every header byte and sampled payload offsets, foreign magic, unknown / unterminated / other-network commands, two frames back to back; write sequences over 1..3 peers sharing the send cache: blocks re-written while cached (with and without confirmation) mixed with other messages shorter and longer than the block, each read back and compared with the original object. distinct = distinct (network, byte stream); non-trivial = the stream contains at least a full header",
 		Shards:   func(tier string) int { return 4 },
 		Parallel: 4,
 		Run:      runC35,
@@ -69,7 +69,9 @@ func init() {
 		TimeoutS: func(tier string) int { return 3600 },
 		Require: []string{"roundtrip_ok", "commands_elanet", "commands_dpos", "header_corruptions_rejected", "payload_corruptions_rejected",
 			"length_sweep_rejected", "length_over_max_rejected", "truncations_rejected", "foreign_magic_rejected",
-			"unknown_command_rejected", "back_to_back_ok", "net_pipe_roundtrips", "big_payload_checksum_failures", "frames_with_exhaustive_header_sweep"},
+			"unknown_command_rejected", "back_to_back_ok", "net_pipe_roundtrips", "big_payload_checksum_failures", "frames_with_exhaustive_header_sweep",
+			"seq_block_rewritten_while_cached", "seq_block_rewritten_after_other_message", "seq_confirmed_block_rewritten_while_cached",
+			"seq_other_message_between", "seq_other_longer_than_a_block", "seq_other_shorter_than_a_block", "seq_roundtrips_equal", "seq_resent_blocks_equal"},
 		Assumptions: []string{
 			"allocation is the runtime.MemStats.TotalAlloc delta around one ReadMessage call in a sequential worker; slack 64 KiB",
 			"a corrupted stream that is itself a well-formed frame of the same network (e.g. the command ping turned into pong: the header carries no checksum of itself) is not required to fail; such cases are counted (corruption_still_wellformed)",
@@ -386,6 +388,7 @@ func runC35(c *kit.Ctx) {
 	}
 	x.bigPayloads(nets[0])
 	x.blockCache(nets[0])
+	x.sequences(nets)
 	x.overPipe(nets)
 }
 
